@@ -214,7 +214,33 @@ def run(ctx, col: Collector):
         if len(params) != 1:
             raise Unrecognised('remove_bom should take exactly one parameter', fi.node)
         p = params[0]
-        paths = function_paths(fi.node, unroll=1)
+        # conditional expressions in returns/assignments become branches; a name that stands for the mark (a constant of this or another module) is read as the mark
+        import copy as _copy
+        from ..strval import _LiftIfExp
+        fnode = _copy.deepcopy(fi.node)
+
+        class _Mark(ast.NodeTransformer):
+            def visit_Name(self, n):
+                if isinstance(n.ctx, ast.Load) and n.id != p:
+                    sym = idx.resolve(fi.module, n.id)
+                    v = getattr(sym, 'node', None) if sym is not None and sym.kind == 'assign' else None
+                    if isinstance(v, ast.Constant) and isinstance(v.value, str) and v.value == '\ufeff':
+                        return ast.copy_location(ast.Constant(value=v.value), n)
+                return n
+
+            def visit_Attribute(self, n):
+                self.generic_visit(n)
+                if isinstance(n.value, ast.Name):
+                    sym = idx.resolve(fi.module, n.value.id)
+                    if sym is not None and sym.kind == 'module' and getattr(sym, 'target_mod', None) in idx.modules:
+                        s2 = idx.resolve(sym.target_mod, n.attr)
+                        v = getattr(s2, 'node', None) if s2 is not None and s2.kind == 'assign' else None
+                        if isinstance(v, ast.Constant) and v.value == '\ufeff':
+                            return ast.copy_location(ast.Constant(value=v.value), n)
+                return n
+        fnode = _LiftIfExp().visit(_Mark().visit(fnode))
+        ast.fix_missing_locations(fnode)
+        paths = function_paths(fnode, unroll=1)
         verdicts = []
         for path in paths:
             env = {p: 'id'}   # 'id' = unchanged parameter, 'tail' = param[1:], 'other'
@@ -479,12 +505,28 @@ def run(ctx, col: Collector):
                           'a source that is none of the accepted types does not end in `raise TypeError` '
                           f'(path ends in {last.kind} {norm(last.node) if last.node is not None else ""})',
                           node=last.node if last.node is not None else new.node, file=new.file)
-        col.check(fall >= 1, 'C12-typeerror', '__new__:has-fallthrough', 'isinstance dispatch has a rejecting branch',
-                  'no path of __new__ rejects unsupported source types', node=new.node, file=new.file)
+        # the source handed on to something this rule did not read (a helper that was not expanded, a loop over a table of types): no verdict from absence
+        handed_on = [norm(c)[:60] for c in ast.walk(new.node) if isinstance(c, ast.Call) and any(norm(a) == p for a in c.args)
+                     and not (isinstance(c.func, ast.Name) and c.func.id in ('isinstance', 'open', 'remove_bom', 'str', 'type', 'repr'))
+                     and not (isinstance(c.func, ast.Attribute) and c.func.attr in ('parse', 'parse_file', 'read'))]
+        table_loops = [n for n in ast.walk(new.node) if isinstance(n, ast.For) and any(isinstance(c, ast.Call) and norm(c.func) == 'isinstance' and c.args and norm(c.args[0]) == p
+                                                                                        for c in ast.walk(n))]
+        undecidable = bool(handed_on or table_loops)
+        if fall >= 1:
+            col.ok('C12-typeerror', '__new__:has-fallthrough', 'isinstance dispatch has a rejecting branch', node=new.node, file=new.file)
+        elif undecidable:
+            col.unk('C12-typeerror', '__new__:has-fallthrough', f'__new__ hands the source to `{(handed_on or ["a loop over a table of types"])[0]}`, which was not followed: cannot see '
+                    f'the rejecting branch', node=new.node, file=new.file)
+        else:
+            col.bad('C12-typeerror', '__new__:has-fallthrough', 'no path of __new__ rejects unsupported source types', node=new.node, file=new.file)
         for t in ('str', 'Path', 'TextIOWrapper'):
-            col.check(any(t == a or t in a.replace('(', ' ').replace(')', ' ').replace(',', ' ').split() for a in accepted),
-                      'C12-types', f'__new__:accepts:{t}', f'{t} sources are dispatched',
-                      f'__new__ has no isinstance branch accepting {t}', node=new.node, file=new.file)
+            okt = any(t == a or t in a.replace('(', ' ').replace(')', ' ').replace(',', ' ').split() for a in accepted)
+            if okt:
+                col.ok('C12-types', f'__new__:accepts:{t}', f'{t} sources are dispatched', node=new.node, file=new.file)
+            elif undecidable:
+                col.unk('C12-types', f'__new__:accepts:{t}', f'cannot see where {t} sources are accepted (the dispatch is in code that was not followed)', node=new.node, file=new.file)
+            else:
+                col.bad('C12-types', f'__new__:accepts:{t}', f'__new__ has no isinstance branch accepting {t}', node=new.node, file=new.file)
     guarded(col, 'C12-typeerror', '__new__', typeerror)
 
     # ---------------------------------------------------------------- (v) static entry points, (vi) same parser
